@@ -350,7 +350,7 @@ def run(ctx):
     # the k-th record after a tags chunk goes to the k-th tag *the chunk lists*: nothing reorders the tag vector between decoding and
     # attachment (seed C10-j sorted the tags by start frame in add_tags)
     import C01 as _c01
-    _c01.no_reordering(ctx, 'S2', elem_types=('tags::Tag',))
+    _c01.no_reordering(ctx, 'S2', elem_types=('tags::Tag', 'parse::Chunk'))     # .. and the chunks of a frame are dispatched in file order (seed C10-m sorted them)
 
     # a cel that received its record is not dropped afterwards: the frame's cel row only ever grows (seed C10-l removed the guard around
     # resize_with, which also truncates)
